@@ -23,6 +23,21 @@ for d, _, fs in os.walk(os.path.join(repo, "src/primaite")):
                         for y in ast.walk(x):
                             if isinstance(y, ast.Name):
                                 names.add(y.id)
+# per-class method bodies (docstring dropped), so that a pure rename of a method the rules know can be recognised and undone
+import hashlib
+def _h(fn):
+    body = [st for st in fn.body if not (isinstance(st, ast.Expr) and isinstance(st.value, ast.Constant) and isinstance(st.value.value, str))]
+    return hashlib.sha1((ast.dump(fn.args) + "|" + "|".join(ast.dump(b) for b in body)).encode()).hexdigest()[:16]
+bodies = {}
+for d, _, fs in os.walk(os.path.join(repo, "src/primaite")):
+    for f in fs:
+        if f.endswith(".py"):
+            t = ast.parse(open(os.path.join(d, f), encoding="utf-8").read())
+            for c in ast.walk(t):
+                if isinstance(c, ast.ClassDef):
+                    for m in c.body:
+                        if isinstance(m, (ast.FunctionDef, ast.AsyncFunctionDef)):
+                            bodies[f"{c.name}.{m.name}"] = _h(m)
 head = subprocess.check_output(["git", "-C", repo, "rev-parse", "--short", "HEAD"], text=True).strip()
-json.dump({"reference": head, "functions": sorted(names)}, open(os.path.join(ROOT, "sa", "vocabulary.json"), "w"), indent=0)
+json.dump({"reference": head, "functions": sorted(names), "method_bodies": dict(sorted(bodies.items()))}, open(os.path.join(ROOT, "sa", "vocabulary.json"), "w"), indent=0)
 print(len(names), "names frozen at", head)
